@@ -157,7 +157,9 @@ struct identity_value_zero {
 
 template <typename T>
 struct identity_value_min {
-  constexpr T operator()() const { return std::numeric_limits<T>::min(); }
+  // lowest(), not min(): for floating-point types min() is the smallest
+  // positive value, which is not an identity for max over negative inputs
+  constexpr T operator()() const { return std::numeric_limits<T>::lowest(); }
 };
 
 template <typename T>
